@@ -163,7 +163,7 @@ def run(ctx, driver):
                 "distinct = distinct definitions; non-trivial = order >= 2 or a rejection")
     fam = [x for x in FAMILY if quick is False or x[2] == "q"]
     cases = [{"f": f, "order": o, "seed": ctx.seed * 1000 + i} for i, (f, o, _) in enumerate(fam)]
-    results = pool.run_cases("harness.props.c05", "case_function", cases, timeout=100 if quick else 600, init="_init_worker", deadline=ctx.deadline())
+    results = pool.run_cases("harness.props.c05", "case_function", cases, timeout=ctx.n(100, 600), init="_init_worker", deadline=ctx.deadline())
     ops = []
     for case, res in zip(cases, results):
         ctx.evaluations += 1
